@@ -337,7 +337,7 @@ def generate(tier, rng):
             Y=(300.0, 1000.0)[i % 2], level_fracs=LEVELS, seed=rng.randrange(10 ** 6))
     # seeded random members of the same families (thorough only)
     if thorough:
-        for _ in range(40):
+        for _ in range(120):
             wt = rng.choice(["log", "power"])
             if wt == "log":
                 w = dict(type="log", ustar=rng.uniform(0.15, 0.6), z00=rng.uniform(0.005, 0.04),
